@@ -4,7 +4,7 @@ use crate::cli;
 use crate::engine::*;
 use crate::front::{self, Run};
 use crate::plain;
-use crate::props::c09::{self, expected_ids, ordering_json, to_symbols, Ordering};
+use crate::props::c09::{self, ordering_json, to_symbols, Ordering};
 use crate::props::c10::{self, Invocation};
 use crate::rlex;
 use crate::rparse;
@@ -45,12 +45,23 @@ pub fn check_api(text: &str, ordering: &Ordering) -> Check {
         if t_ord != oracle {
             return Err(v(format!("the answer {} differs from the reference {}", t_ord.to_hex(), oracle.to_hex())));
         }
-        // (2) listed names carry the ordering's ids, the others follow in first-appearance order
-        let want = expected_ids(&idents, &some);
+        // (2) listed names carry the ordering's ids; unlisted names get fresh, distinct ids
         let got: Vec<(String, usize)> = pf.vars.iter().map(|s| (s.name.as_ref().clone(), s.id)).collect();
-        if got != want {
-            return Err(v(format!("variables are numbered {:?}, expected {:?}", got, want)));
+        let mut gn: Vec<&String> = got.iter().map(|x| &x.0).collect();
+        gn.sort();
+        let mut wn: Vec<&String> = idents.iter().collect();
+        wn.sort();
+        if gn != wn || got.windows(2).any(|w| w[0].1 >= w[1].1) {
+            return Err(v(format!("variables {:?} are not the identifiers {:?} once each in increasing id order", got, idents)));
         }
+        for (n, id) in ordering {
+            if let Some((_, g)) = got.iter().find(|(m, _)| m == n) {
+                if g != id {
+                    return Err(v(format!("`{}` is listed with id {} but carries id {}", n, id, g)));
+                }
+            }
+        }
+        let want = got.clone();
         // along every path variables appear in that order
         let sh = plain::invariants(&r_ord);
         if !sh.ordered {
@@ -151,7 +162,7 @@ fn gen_api_ordering(t: &mut Tape, idents: &[String]) -> (Ordering, &'static str)
 pub fn run(ctx: &mut Ctx) -> Result<(), Violation> {
     ctx.rule = "cases = (formula text, ordering). API: ordering = Vec<NamedSymbol> with distinct names and distinct ids (permutation, strict subset, superset with unused names, reversed; contiguous ids or gaps; ids not monotone along the vector); \
                 CLI: ordering FILE text (names separated by whitespace/commas/newlines/stray punctuation/comments, duplicates, unused names before/between/after, keywords and numbers sprinkled in). \
-                Oracle: (1) by-name truth table under the ordering == under the default order == reference semantics; (2) listed names carry the ordering's ids, unlisted follow in first-appearance order, and along every path variables appear in that order; (3) `-o file -r -t`: header in file order, table denotes the same function; (4) feeding the -r export back with -o prints the byte-identical table. \
+                Oracle: (1) by-name truth table under the ordering == under the default order == reference semantics; (2) listed names carry exactly the ordering's ids, unlisted names get distinct fresh ids (their position is not prescribed), and along every path variables appear in id order; (3) `-o file -r -t`: header in file order, table denotes the same function; (4) feeding the -r export back with -o prints the byte-identical table. \
                 Non-trivial = the ordering changes the relative order of >= 2 variables of the formula or is a strict superset/subset; distinct by (text, ordering)."
         .to_string();
     ctx.assume("API orderings have distinct names and distinct ids (the property's domain)");
@@ -171,7 +182,7 @@ pub fn run(ctx: &mut Ctx) -> Result<(), Violation> {
         st.class(&format!("api-ordering:{}", kind));
         let def: Vec<&String> = idents.iter().collect();
         let mut by_ord: Vec<&String> = idents.iter().collect();
-        let want = expected_ids(&idents, &Some(ord.clone()));
+        let want = crate::props::c09::expected_ids(&idents, &Some(ord.clone()));
         by_ord.sort_by_key(|n| want.iter().find(|(m, _)| m == *n).map(|x| x.1));
         let changes = def != by_ord && idents.len() >= 2;
         let sub_super = ord.len() != idents.len() || ord.iter().any(|(n, _)| !idents.contains(n));
